@@ -131,14 +131,12 @@ theorem Misc.headD_and_one {w n : Nat} {x : List Nat} (hw : 1 ≤ w) (hn : 1 ≤
   match x, hx with
   | d :: ds, hx =>
     have hB := B_even hw
-    simp only [List.headD_cons, U_cons, Nat.and_one_is_mod]
+    apply bool_eq_decide
+    rw [beq_iff_eq, List.headD_cons, U_cons, Nat.and_one_is_mod]
     generalize B w / 2 = h at hB
     rw [hB, Nat.mul_assoc]
-    by_cases hd : d % 2 = 1
-    · have : (d + 2 * (h * U w ds)) % 2 = 1 := by omega
-      simp [hd, this]
-    · have : ¬ (d + 2 * (h * U w ds)) % 2 = 1 := by omega
-      simp [hd, this]
+    generalize h * U w ds = q
+    omega
   | [], hx => exact absurd hx.1 (by simp)
 
 /-- `BInt::midpoint` never panics (debug or release) and is `(a + b) / 2` rounded toward zero -/
@@ -185,7 +183,7 @@ theorem II.midpoint_spec {w n : Nat} {a b : List Nat} (dbg : Bool) (hw : 2 ≤ w
     rw [hr3, S_one hw hn, ht3]
     split_ifs <;> omega
   · have hcond : (decide (S w t < 0) && decide (U w (UI.bitxor a b) % 2 = 1)) = false := by
-      by_cases h1 : S w t < 0 <;> by_cases h2 : U w (UI.bitxor a b) % 2 = 1 <;> simp_all
+      rw [← Bool.not_eq_true, Bool.and_eq_true, decide_eq_true_iff, decide_eq_true_iff]; exact hc
     rw [hcond]
     simp only [Bool.false_eq_true, if_false]
     refine ⟨t, rfl, ht2, ?_⟩
@@ -196,16 +194,16 @@ theorem II.midpoint_spec {w n : Nat} {a b : List Nat} (dbg : Bool) (hw : 2 ≤ w
 
 /-! ### abs_diff -/
 
-theorem Misc.lt_match (o : Ordering) :
-    ((match o with | .lt => true | _ => false) = true) ↔ o = .lt := by
-  cases o <;> simp
+theorem Misc.lt_iff_cmp (cmp : List Nat → List Nat → Ordering) (a b : List Nat) :
+    CmpImpl.lt cmp a b = true ↔ cmp a b = .lt := by
+  unfold CmpImpl.lt; cases cmp a b <;> simp
 
 /-- `BUint::abs_diff` = `|a - b|` -/
 theorem UI.absDiff_spec {w n : Nat} {a b : List Nat} (ha : WF w n a) (hb : WF w n b) :
     WF w n (UI.absDiff w a b) ∧ U w (UI.absDiff w a b) = ((U w a : Int) - U w b).natAbs := by
   unfold UI.absDiff
   have hlt : CmpImpl.lt UI.cmp a b = true ↔ U w a < U w b := by
-    unfold CmpImpl.lt; rw [Misc.lt_match, UI.cmp_spec ha hb, compare_lt_iff_lt]
+    rw [Misc.lt_iff_cmp, UI.cmp_spec ha hb, compare_lt_iff_lt]
   have hua := U_lt ha; have hub := U_lt hb
   by_cases h : CmpImpl.lt UI.cmp a b = true
   · rw [if_pos h]
@@ -229,7 +227,7 @@ theorem II.absDiff_spec {w n : Nat} {a b : List Nat} (hw : 1 ≤ w) (hn : 1 ≤ 
     WF w n (II.absDiff w a b) ∧ U w (II.absDiff w a b) = (S w a - S w b).natAbs := by
   unfold II.absDiff
   have hlt : CmpImpl.lt (II.cmp w) a b = true ↔ S w a < S w b := by
-    unfold CmpImpl.lt; rw [Misc.lt_match, II.cmp_spec hw hn ha hb, compare_lt_iff_lt]
+    rw [Misc.lt_iff_cmp, II.cmp_spec hw hn ha hb, compare_lt_iff_lt]
   have hra := S_repS hw hn ha; have hrb := S_repS hw hn hb
   obtain ⟨ka, hka⟩ := S_spec ha; obtain ⟨kb, hkb⟩ := S_spec hb
   unfold repS at hra hrb
